@@ -351,3 +351,41 @@ fn c06_q_bulk_conversion() {
     }
     kani::cover!(true, "all 8 assignments converted");
 }
+
+// H: tier=quick; sym=coordinates of 3 shapes; structure=all 8 assignments of {Point, NullShape} to 3 positions (concrete loop); asserts=convert_shapes_to_vec_of::<Point> is Ok with the 3 points in order iff all are Point; otherwise MismatchShapeType{requested: Point, actual: NullShape} (a null element is neither skipped nor converted)
+#[kani::proof]
+#[kani::unwind(22)]
+fn c06_q_bulk_conversion_null() {
+    let mut mask = 0u8;
+    while mask < 8 {
+        let mut v: Vec<Shape> = Vec::with_capacity(3);
+        let mut xs = [0.0f64; 3];
+        let mut i = 0;
+        while i < 3 {
+            let x = any_f64_not_nan();
+            xs[i] = x;
+            if mask & (1 << i) == 0 {
+                v.push(Shape::Point(Point::new(x, 1.0)));
+            } else {
+                v.push(Shape::NullShape);
+            }
+            i += 1;
+        }
+        let r = convert_shapes_to_vec_of::<Point>(v);
+        match &r {
+            Ok(pts) => {
+                assert!(mask == 0);
+                assert!(pts.len() == 3);
+                assert!(beq(pts[0].x, xs[0]) && beq(pts[1].x, xs[1]) && beq(pts[2].x, xs[2]));
+            }
+            Err(Error::MismatchShapeType { requested, actual }) => {
+                assert!(mask != 0);
+                assert!(*requested as i32 == T_POINT && *actual as i32 == 0);
+            }
+            Err(_) => assert!(false),
+        }
+        std::mem::forget(r);
+        mask += 1;
+    }
+    kani::cover!(true, "all 8 assignments converted");
+}
